@@ -71,9 +71,20 @@ func init() {
 			add(t, []int{r[0], -1, r[2]}, []int{0, 1, 0}, 1, 1)
 			add(t, []int{r[0], r[1], r[2] + 1}, []int{0, 0, 0}, 0, 0)
 			add(t, []int{r[0] + 2, r[1], r[2]}, []int{1, 0, 0}, 0, 0)
+			// every subset of the declared inputs shadowed by initializers (adjacent ones included), none of the shadowed supplied
+			for mask := 1; mask < 8; mask++ {
+				in := []int{mask & 1, mask >> 1 & 1, mask >> 2 & 1}
+				sup := []int{r[0], r[1], r[2]}
+				for k := range sup {
+					if in[k] == 1 {
+						sup[k] = -1
+					}
+				}
+				add(t, sup, in, 0, 0)
+			}
 		}
 		p.Bounds = []string{
-			"declared inputs: 1..3; declared rank 1..3 (thorough 1..4) for one input, 1..2 (thorough 1..3) for two, fixed triples for three",
+			"declared inputs: 1..3 (for three: every subset shadowed by initializers); declared rank 1..3 (thorough 1..4) for one input, 1..2 (thorough 1..3) for two, fixed triples for three",
 			"every dimension fixed / dim_param / unspecified; fixed dim_value symbolic over [1, 2^63-1] (all values decided by the solver)",
 			"supplied tensors: missing, rank-1, rank, rank+1; each supplied extent symbolic over [1,6]; extra undeclared tensor; inputs shadowed by initializers",
 			"map iteration: forward and reverse order at every range over a Go map",
